@@ -180,13 +180,17 @@ class Vncdo:
     def lose(self, clean=True):
         n0 = len(self.trace)
         reason = Failure(ConnectionDone() if clean else ConnectionLost())
-        self.proto.connectionLost(reason)
+        try:
+            self.proto.connectionLost(reason)
+        except Exception as e:  # noqa  - the reactor logs an exception of connectionLost and carries on
+            self.trace.append(("cb", "raise:" + exc_class(e)))
         return toks(self.trace[n0:])
 
-    def connect_failed(self):
+    def connect_failed(self, cls="ConnectionRefusedError"):
         # the endpoint reports that the connection could not be made: whatever factory_connect attached to it runs
-        from twisted.internet.error import ConnectionRefusedError as CRE
-        self.conn_deferred.errback(Failure(CRE()))
+        from twisted.internet import error as terr
+        exc = OSError(2, "No such file or directory") if cls == "OSError" else getattr(terr, cls)()
+        self.conn_deferred.errback(Failure(exc))
 
     def status(self):
         return self.reactor.exit_status, (None if self.reactor.stopped_at is None else ticks(self.reactor.stopped_at))
